@@ -98,4 +98,53 @@ CHECKS = {
         "require": ["op:probe:execute:ok", "op:probe:execute:fail", "op:probe:query:ok", "op:probe:reply:fail", "op:probe:migrate:fail", "op:probe:instantiate:ok", "op:probe:sudo:ok"],
         "assumptions": [SIM, "simulated block time stays below the year 2286", "panics in states whose exchange rate is outside [1e-3, 1e3] are counted but not reported (outside the property's bounds)"],
     },
+    "C08": {
+        "level": "exploration",
+        "lanes": [("matrix", lane("c08", {"histories": 4, "steps": 120, "every": 12}, {"histories": 1000000, "steps": 400, "every": 10}))],
+        "rule": "at sampled reachable states of random histories (incl. after ownership handover and monitor changes) the whole matrix (privileged message variant x principal) is executed on world clones with arguments that are valid for the rightful caller; unauthorised => must fail with the world unchanged; Withdraw is tried by every principal on every received batch; distinct = (variant, principal role, outcome, halted)",
+        "require": ["c08:unauthorised_refused", "c08:rightful_ok:add_validator", "c08:rightful_ok:update_config", "c08:rightful_ok:transfer_ownership", "c08:rightful_ok:revoke_ownership_transfer", "c08:rightful_ok:resume_contract", "c08:rightful_ok:circuit_breaker", "c08:rightful_ok:accept_ownership", "c08:rightful_ok:receive_rewards", "c08:rightful_ok:receive_unstaked_tokens", "c08:rightful_ok:fee_withdraw", "c08:rightful_ok:recover_forced", "c08:handover"],
+        "assumptions": [SIM, "a failed transaction is rolled back by the runtime (simulated), so 'nothing changes' is checked on the simulator state"],
+    },
+    "C09": {
+        "level": "exploration",
+        "lanes": [("derive", lane("c09", {"triples": 400}, {"triples": 100000000}))],
+        "rule": "random and adversarial (channel, native sender, protocol prefix) triples: a deployment is configured with them and ReceiveRewards / ReceiveUnstakedTokens are sent from the account computed by the harness's own SHA-256 + bech32 (must be accepted) and from 17 near-miss derivations (must be rejected); end-to-end through the simulator's ibc-hooks; accepted account follows collector / channel updates; pre-image and account injectivity over all generated pairs; distinct = (message, near-miss family, prefix length, channel length)",
+        "require": ["c09:rewards:rightful_accepted", "c09:unstaked:rightful_accepted", "c09:rejected:single-hash", "c09:rejected:bech32m", "c09:rejected:channel+1", "c09:end_to_end", "c09:follows_channel_update"],
+        "assumptions": [SIM, "absence of SHA-256 collisions is not observable; injectivity is checked on the pre-image string and on the pairs generated"],
+    },
+    "C10": {
+        "level": "exploration",
+        "lanes": [("breaker", lane("c10", {"histories": 6, "steps": 150, "every": 10}, {"histories": 1000000, "steps": 400, "every": 8}))],
+        "rule": "at sampled reachable states: clone A is halted (by the admin or a monitor), clone B keeps running; each of the six value-moving messages is issued with arguments for which B succeeds and must fail on A without any effect; halting and resuming are compared query-by-query and by raw storage diff; distinct = (message, who tripped, rate regime)",
+        "require": ["c10:fresh_instance", "c10:halt_by_admin", "c10:halt_by_monitor", "c10:resume_checked", "c10:running_clone_succeeds:liquid_stake", "c10:running_clone_succeeds:liquid_unstake", "c10:running_clone_succeeds:submit_batch", "c10:running_clone_succeeds:receive_rewards", "c10:running_clone_succeeds:receive_unstaked_tokens"],
+        "assumptions": [SIM],
+    },
+    "C12": {
+        "level": "exploration", "exhaustive": True,
+        "lanes": [("handover", lane("c12", {"depth": 4, "random": 200}, {"depth": 5, "random": 5000}))],
+        "rule": "alphabet of 19 symbols ({initial admin, a, b, stranger} x {nominate a, nominate b, revoke, accept} + wait 7d-1s / 1s / 7d); ALL sequences up to the stated depth on both contracts by prefix-tree DFS on world clones, plus random sequences of length 6-40; every step's outcome is compared with a reference state machine, the admin identity is read back (treasury Config, admin-only probes, State.pending_owner) at every leaf and after every handover; distinct = (contract, admin, nominee, clock vs deadline) at leaves",
+        "require": ["c12:sequences", "c12:handovers", "c12:accept_at_-1", "c12:accept_at_0", "c12:accept_at_1", "c12:random_sequences"],
+        "assumptions": [SIM],
+    },
+    "C13": {
+        "level": "exploration",
+        "lanes": [("treasury", lane("c13", {"lists": 80}, {"lists": 100000000}))],
+        "rule": "random allow-lists (0-6 routes, 1-4 hops) x candidate routes derived from them (exact, prefix, suffix, reversed, perturbed field, extended, concatenation, splice, empty, random) x {exact-in, exact-out} x end-point denom {matching, other end, unrelated} x {trader, other}; success must equal the harness's own predicate; the emitted message is decoded by the harness's wire reader and compared with the request and with its canonical re-encoding; SpendFunds / UpdateConfig by admin and non-admins to 8 receiver classes",
+        "require": ["c13:exact", "c13:prefix", "c13:suffix", "c13:concatenation", "c13:spend:ibc:ok", "c13:spend:local:ok", "c13:spend:ibc:fail", "c13:spend:local:fail"],
+        "assumptions": [SIM, "bech32m and upper-case receivers are accepted by the contract's bech32 decoder and are not counted as malformed"],
+    },
+    "C14": {
+        "level": "exploration",
+        "lanes": [("config", lane("c14", {"cases": 40}, {"cases": 100000000}))],
+        "rule": "valid random configurations, then field-level corruption (13 fields x families: empty, case change, truncation, checksum damage, separator damage, whitespace, prefix swap, duplicates, malformed channels / denoms / sub-denoms) at instantiation and in UpdateConfig with every subset of sections; accepted => the supplied sections satisfy the harness's own well-formedness predicate; sections not supplied, the LST denom and the halted flag are identical before/after; AddValidator / RemoveValidator sequences change exactly the named element; distinct = (entry, field, family, outcome)",
+        "require": ["c14:valid_accepted", "c14:corrupted_refused", "c14:update_accepted", "c14:update_refused", "c14:validator_add:ok", "c14:validator_add:fail", "c14:validator_remove:ok", "c14:validator_remove:fail"],
+        "assumptions": [SIM, "lenient readings: upper-case addresses, case-variant duplicates, channel-+5, bech32m checksums and ibc/ + 64 bytes are not counted as malformed (DESIGN.md section 6)"],
+    },
+    "C17": {
+        "level": "exploration",
+        "lanes": [("paging", lane("c17", {"histories": 6, "steps": 150, "every": 10}, {"histories": 1000000, "steps": 500, "every": 8})), ("hist", hist("C17", qh=6))],
+        "rule": "at sampled reachable states: Batches paged with limit in {none,0,1,2,3,n,n+1} x every status filter following the cursor, random (start_after, limit, status) triples, BatchesByIds with missing / duplicate / unsorted ids, IbcQueue paging, all compared with the unpaginated scan filtered by the harness and with the simulator's packet store; UnstakeRequests of every user compared with the reference model of open requests (also after every unstake / withdraw of the history lane)",
+        "require": ["c17:states_probed", "c17:states_with_3_batches", "op:liquid_unstake:ok", "op:withdraw:ok"],
+        "assumptions": [SIM],
+    },
 }
